@@ -52,6 +52,24 @@ static void run(const char* name, int kind, int L, int U, int n) {
       os << "G" << k; for (int t = 0; t < d.size(); ++t) os << " " << (long)d(t); os << " | ";
     }
     if (n >= 2) { int a = n / 3, b = n - 1 - (n > 3 ? 1 : 0); SM Sub = S.submatrix_on_diagonal(a, b); Matrix M; M = Sub; os << "U" << a << "_" << b; dumpM(os, "", M); }
+    if (n >= 2) {   // diagonals of a sub-matrix view (its offset is the parent's, its dimension is smaller), read and written
+      int a = n / 3, b = n - 1 - (n > 3 ? 1 : 0), m = b - a + 1;
+      SM Sub = S.submatrix_on_diagonal(a, b);
+      int kw = 0; bool have = false;
+      for (int k = -(m - 1); k <= m - 1; ++k) {
+        bool ok = (k >= 0) ? stored(kind, L, U, 0, k) : stored(kind, L, U, -k, 0);
+        if (kind == 3 && k > 0) ok = false;
+        if (kind == 4 && k < 0) ok = false;
+        if (!ok) continue;
+        if (!have || (k != 0 && (kw == 0 || (k < 0 && k > kw)))) { kw = k; have = true; }
+        Vector d = Sub.diag_vector(k);
+        os << "UG" << k; for (int t = 0; t < d.size(); ++t) os << " " << (long)d(t); os << " | ";
+      }
+      SM S4(n); S4 = 0.0; S4 = S;
+      SM Sub4 = S4.submatrix_on_diagonal(a, b);
+      Vector dw = Sub4.diag_vector(kw); dw = -7.0;
+      Matrix M4; M4 = S4; os << "UW" << kw; dumpM(os, "", M4);
+    }
     { Matrix E; E = S + 2.0 * S; dumpM(os, "E", E); }
     { Matrix F; F = S.T() * 1.0 + S; dumpM(os, "F", F); }
     { Matrix X(n, n); for (int i = 0; i < n; ++i) for (int j = 0; j < n; ++j) X(i, j) = 1000 + 10 * i + j;
